@@ -1,16 +1,19 @@
 package decor
 
 import (
+	"encoding/json"
 	"fmt"
 	"io/ioutil"
 	"os"
 	"runtime"
 	"strconv"
+	"strings"
 	"sync"
 	"sync/atomic"
 	"time"
 
 	"github.com/taskctl/taskctl/pkg/output"
+	"github.com/taskctl/taskctl/pkg/runner"
 	"github.com/taskctl/taskctl/pkg/task"
 
 	"verif/harness/internal/core"
@@ -176,4 +179,88 @@ func firstLine(s string) string {
 		}
 	}
 	return s
+}
+
+// FormatResultWorker runs in a child process: the same tasks on a real TaskRunner under each output
+// format; prints, per format and task, what is recorded about the task (error, flags, exit code,
+// captured stdout / stderr, error message). The parent compares the formats.
+func FormatResultWorker() int {
+	type rec struct {
+		Err      bool   `json:"err"`
+		Errored  bool   `json:"errored"`
+		Skipped  bool   `json:"skipped"`
+		ExitCode int16  `json:"exit_code"`
+		Stdout   string `json:"stdout"`
+		Stderr   string `json:"stderr"`
+		Message  string `json:"message"`
+	}
+	specs := map[string][]string{
+		"ok-noisy":     {"echo out1; echo err1 >&2", "echo out2"},
+		"fail-both":    {"echo out1; echo err1 >&2; exit 3", "echo never"},
+		"fail-stdout":  {"echo only-out; exit 4"},
+		"fail-stderr":  {"echo only-err >&2; exit 5"},
+		"fail-silent":  {"exit 6"},
+		"ok-multiline": {"printf 'l1\\nl2\\nl3'"},
+	}
+	out := map[string]map[string]rec{}
+	for _, f := range []string{output.FormatRaw, output.FormatPrefixed, output.FormatCockpit} {
+		out[f] = map[string]rec{}
+		for name, cmds := range specs {
+			ch := output.VerifResetCockpit()
+			t := task.FromCommands(cmds...)
+			t.Name = name
+			tr, err := runner.NewTaskRunner()
+			if err != nil {
+				fmt.Println("ERR", err)
+				return 2
+			}
+			tr.OutputFormat = f
+			tr.Stdout, tr.Stderr = ioutil.Discard, ioutil.Discard
+			e := tr.Run(t)
+			r := rec{Err: e != nil, Errored: t.Errored, Skipped: t.Skipped, ExitCode: t.ExitCode,
+				Stdout: t.Log.Stdout.String(), Stderr: t.Log.Stderr.String()}
+			r.Message = t.ErrorMessage() // (reads the log: taken last)
+			out[f][name] = r
+			close(ch)
+		}
+	}
+	b, _ := json.Marshal(out)
+	fmt.Println("RESULT " + string(b))
+	return 0
+}
+
+// checkFormatResult: the recorded result of a task does not depend on the output format.
+func checkFormatResult(env *core.Env, add func(kind, what string, detail interface{})) int {
+	self, err := os.Executable()
+	if err != nil {
+		core.Broken("os.Executable: %v", err)
+	}
+	res := core.RunBin(env.Sub("fmtres"), nil, 2*time.Minute, "", self, "worker", "format-result")
+	if res.Crashed() {
+		add("format:crash", "running tasks under the three output formats crashed: "+firstPanic(res.Stderr), map[string]interface{}{"stderr": tail(res.Stderr, 2000)})
+		return 0
+	}
+	var payload string
+	for _, l := range strings.Split(res.Stdout, "\n") {
+		if strings.HasPrefix(l, "RESULT ") {
+			payload = strings.TrimPrefix(l, "RESULT ")
+		}
+	}
+	if res.TimedOut || res.Exit != 0 || payload == "" {
+		core.Broken("format-result worker: exit %d timedout %v: %s", res.Exit, res.TimedOut, tail(res.Stderr, 500))
+	}
+	var m map[string]map[string]map[string]interface{}
+	if err := json.Unmarshal([]byte(payload), &m); err != nil {
+		core.Broken("format-result worker: %v", err)
+	}
+	n := 0
+	for name, raw := range m[output.FormatRaw] {
+		for _, f := range []string{output.FormatPrefixed, output.FormatCockpit} {
+			n++
+			if core.JSON(m[f][name]) != core.JSON(raw) {
+				add("format:recorded-result-depends-on-format", fmt.Sprintf("task %s: recorded result under raw %s, under %s %s", name, core.JSON(raw), f, core.JSON(m[f][name])), nil)
+			}
+		}
+	}
+	return n
 }
